@@ -722,23 +722,36 @@ func inF39(c *EWCase) bool {
 	}
 	// the defect sits in the flat vector kernels: an operand that certainly needs an iterator (a pending
 	// lazy transposition, a stepped slice) keeps the call out of them, and zero divisors are asserted there
-	certainlyIter := func(l Layout) bool {
-		if l.Final != "" || l.IsCM() {
+	certainlyIter := func(o *Opnd) bool {
+		l := o.L
+		if l.Final != "" || l.IsCM() || len(l.Steps) != 1 {
 			return false
 		}
-		for _, st := range l.Steps {
-			if st.Op == "T" && !isIdentity(st.Perm) {
-				return true
+		st := l.Steps[0]
+		switch st.Op {
+		case "T":
+			// a real transposition: two axes longer than one change their order
+			// (o.Shape is the shape after the step: result axis i is source axis Perm[i])
+			last := -1
+			for i, ax := range st.Perm {
+				if i < len(o.Shape) && o.Shape[i] > 1 {
+					if ax < last {
+						return true
+					}
+					last = ax
+				}
 			}
-			for _, x := range st.Step {
-				if x > 1 {
+		case "slice":
+			// a step that really skips elements: on an axis that is longer than one afterwards
+			for j, x := range st.Step {
+				if x > 1 && j < len(o.Shape) && o.Shape[j] > 1 {
 					return true
 				}
 			}
 		}
 		return false
 	}
-	if prod(c.A.Shape) > 1 && nonUnit(c.A.Shape) >= 2 && (certainlyIter(c.A.L) || (c.B != nil && certainlyIter(c.B.L))) && c.Engine == "" {
+	if prod(c.A.Shape) > 1 && (certainlyIter(&c.A) || (c.B != nil && certainlyIter(c.B))) && c.Engine == "" {
 		return false
 	}
 	isZero := func(code int64) bool { return eqVal(decode(d, code), zeroOf(d)) }
